@@ -2,6 +2,7 @@ package simx
 
 import (
 	"fmt"
+	"strings"
 
 	"github.com/sarchlab/akita/v5/mem"
 	"github.com/sarchlab/akita/v5/mem/cache"
@@ -293,8 +294,15 @@ func DRAMPreset(kind string) (dram.Spec, bool) {
 		openPage = true
 		kind = kind[:len(kind)-5]
 	}
+	// "@RxGxB" overrides the geometry: ranks x bank groups x banks per group
+	geo := ""
+	if i := strings.Index(kind, "@"); i >= 0 {
+		kind, geo = kind[:i], kind[i+1:]
+	}
 	var spec dram.Spec
 	switch kind {
+	case "dram-DEFAULT":
+		spec = dram.DefaultSpec()
 	case "dram-DDR4":
 		spec = dram.DDR4Spec
 	case "dram-DDR5":
@@ -307,6 +315,13 @@ func DRAMPreset(kind string) (dram.Spec, bool) {
 		spec = dram.GDDR6Spec
 	default:
 		return spec, false
+	}
+	if geo != "" {
+		var r, g, b int
+		if n, _ := fmt.Sscanf(geo, "%dx%dx%d", &r, &g, &b); n != 3 || r < 1 || g < 1 || b < 1 {
+			return spec, false
+		}
+		spec.NumRank, spec.NumBankGroup, spec.NumBank = r, g, b
 	}
 	if openPage {
 		spec.PagePolicy = dram.PagePolicyOpen
